@@ -142,10 +142,28 @@ def rare_values(repo, chk):
                 elif not any(o.oid == 'C13.2a' and o.status == 'violated' for o in chk.obs):
                     chk.bad('C13.2a', 'R14', fn.site(a), ast.unparse(st), 'retirement is not guarded by `count > args.rare_value_count_upper_bound`')
         chk.expect(okshape, 'C13.1e', 'R5', fn.site(a), ast.unparse(a), 'retired keys are the keys of the store itself (same shape)', 'keys added to the retirement set must be the keys of the rare-value store (iteration over storage.items())')
-    # deletions use the retired keys
+    # deletions use the retired keys: every key added to the retirement set is also scheduled for deletion (same guard), and every scheduled key is deleted
     dels = [n for n in own_nodes(fn.node) if isinstance(n, ast.Delete)]
     pops = [c for c in calls(fn, attr='pop') if isinstance(c.func.value, ast.Name) and c.func.value.id in store_al]
-    chk.expect(bool(dels or pops), 'C13.2c', 'R13', fn.site(), 'del storage[key] for retired keys', 'retired pairs leave the rare-value report', 'retired pairs are not removed from the rare-value store: frequent values are reported as rare')
+    ok_del = False
+    for a in adds:
+        blk = par.get(par.get(a))
+        body = getattr(blk, 'body', [])
+        sched = [s for s in body if isinstance(s, ast.Expr) and isinstance(s.value, ast.Call) and isinstance(s.value.func, ast.Attribute) and s.value.func.attr == 'append' and ast.unparse(s.value.args[0]) == ast.unparse(a.args[0]) and isinstance(s.value.func.value, ast.Name)]
+        direct = [s for s in body if isinstance(s, ast.Delete)]
+        if sched:
+            lst = sched[0].value.func.value.id
+            for d in dels:
+                lp = par.get(d)
+                if isinstance(lp, ast.For) and ast.unparse(lp.iter) == lst and isinstance(lp.target, ast.Name) and len(d.targets) == 1 and isinstance(d.targets[0], ast.Subscript) \
+                        and ast.unparse(d.targets[0].slice) == lp.target.id and isinstance(d.targets[0].value, ast.Name) and d.targets[0].value.id in store_al and not any(isinstance(x, ast.If) for x in ast.walk(lp)):
+                    ok_del = True
+        if direct:
+            ok_del = True
+    if pops:
+        ok_del = True
+    chk.expect(ok_del, 'C13.2c', 'R13', fn.site(dels[0]) if dels else fn.site(), 'keys_to_remove.append(key) ... for key in keys_to_remove: del storage[key]', 'every retired pair leaves the rare-value report',
+               'a pair whose count exceeded the threshold is retired but not removed from the rare-value store: frequent values are reported as rare')
     # the retirement set persists: the global is re-bound only to its own alias; the alias is the global (not a fresh set)
     for n in own_nodes(fn.node):
         if isinstance(n, ast.Assign) and len(n.targets) == 1 and isinstance(n.targets[0], ast.Name):
@@ -405,6 +423,10 @@ def rare_table(repo, chk):
                 ok = [ast.unparse(e) for e in aps[0].args[0].elts] == [a, b, cnt] and not any(isinstance(x, ast.If) for x in ast.walk(lp))
     chk.expect(ok, 'C13.7a', 'R15', fn.site(loops[0]) if loops else fn.site(), 'rows [namespace, value, count] for every entry of the store', 'rare table lists every remaining (column, value) with its exact count',
                'the rare-value table must contain one row [namespace, value, count] for every entry of the rare-value store, unfiltered')
+    wr = [c for c in calls(fn, attr='to_csv') if 'rare_values.tsv' in ast.unparse(c)]
+    okw = len(wr) == 1 and isinstance(wr[0].func.value, ast.Name) and any(isinstance(n, (ast.Assign, ast.AnnAssign)) and n.value is not None and ast.unparse(n.targets[0] if isinstance(n, ast.Assign) else n.target) == wr[0].func.value.id and 'DataFrame(out_df_rows)' in ast.unparse(n.value) for n in own_nodes(fn.node)) \
+        and not _conditional(fn, wr[0])
+    chk.expect(okw, 'C13.7d', 'origin', fn.site(wr[0]) if wr else fn.site(), ast.unparse(wr[0]).replace('\n', ' ')[:120] if wr else 'out_df.to_csv(rare_values.tsv)', 'rare_values.tsv is written from exactly these rows', 'rare_values.tsv must be written, unconditionally, from the frame of all [namespace, value, count] rows')
     cols = [n for n in own_nodes(fn.node) if isinstance(n, ast.Assign) and ast.unparse(n.targets[0]).endswith('.columns') and isinstance(n.value, ast.List)]
     okc = any([getattr(e, 'value', None) for e in n.value.elts] == ['Namespace', 'value', 'Count'] for n in cols)
     chk.expect(okc, 'C13.7b', 'R8', fn.site(cols[0]) if cols else fn.site(), "columns ['Namespace', 'value', 'Count']", 'columns in row order', 'column labels of the rare table must be Namespace, value, Count in row order')
